@@ -321,6 +321,14 @@ theorem hashmap_empty (h : K → Nat) {nb : Nat} (hnb : 0 < nb) :
     Inv h (HashMap.empty nb : HashMap.HM K V) ∧ ∀ k, abs (HashMap.empty nb : HashMap.HM K V) k = none :=
   AslProofs.HashMap.empty_inv h hnb
 
+/-- every constructor argument — zero and negative size hints included (16300ca) — gives a well-formed empty table -/
+theorem hashmap_ofSize (h : K → Nat) (n : Int) :
+    Inv h (HashMap.ofSize n : HashMap.HM K V) ∧ (∀ k, abs (HashMap.ofSize n : HashMap.HM K V) k = none) ∧
+    0 < (HashMap.ofSize n : HashMap.HM K V).buckets.length := by
+  have hp := AslProofs.HashMap.nextPoT_pos (if n < 1 then 1 else n.toNat)
+  obtain ⟨i, a⟩ := AslProofs.HashMap.empty_inv (V := V) h hp
+  exact ⟨i, a, i.wf.nb_pos⟩
+
 /-- **lookups**: walking only the chain of bucket `binOf key` finds exactly what a linear search over the whole
 enumeration finds -/
 theorem hashmap_lookups {h : K → Nat} {m : HashMap.HM K V} (inv : Inv h m) (key : K) (dflt : V) :
@@ -328,6 +336,20 @@ theorem hashmap_lookups {h : K → Nat} {m : HashMap.HM K V} (inv : Inv h m) (ke
     HashMap.get h m key dflt = (abs m key).getD dflt := by
   refine ⟨AslProofs.HashMap.find_eq_abs inv.wf key, AslProofs.HashMap.has_eq_abs inv.wf key, ?_⟩
   unfold HashMap.get; rw [AslProofs.HashMap.find_eq_abs inv.wf key]
+
+/-- **no growth while shared** (c201e90): when more than one handle refers to the table, `rehash()` leaves it
+exactly as it is — so `operator[]` never rebinds the bucket array of one handle behind the back of the others,
+which is what lets the driver (and the theorems) treat all handles of a table as one object -/
+theorem rehash_shared_noop (h : K → Nat) (m : HashMap.HM K V) (hrc : 1 < m.rc) : HashMap.rehash h m = m := by
+  unfold HashMap.rehash
+  simp [hrc]
+
+/-- while shared, an insertion changes nothing but the chain of the key's bucket: the table keeps its size -/
+theorem index_shared_keeps_size (h : K → Nat) (dflt : V) (m : HashMap.HM K V) (key : K) (hrc : 1 < m.rc) :
+    (HashMap.index h dflt m key).buckets.length = m.buckets.length ∧ (HashMap.index h dflt m key).rc = m.rc := by
+  unfold HashMap.index
+  rw [rehash_shared_noop h m hrc]
+  simp
 
 /-- the value `operator[]` refers to is the stored one, or the default it has just created -/
 theorem hashmap_index_value {h : K → Nat} {m : HashMap.HM K V} (inv : Inv h m) (key : K) (dflt : V) :
@@ -349,12 +371,15 @@ theorem hashmap_enumeration {h : K → Nat} {m : HashMap.HM K V} (inv : Inv h m)
     ∀ k v, (k, v) ∈ HashMap.enum m ↔ abs m k = some v :=
   ⟨inv.count, AslProofs.HashMap.keys_nodup inv, AslProofs.HashMap.mem_enum_iff inv⟩
 
+/-- operations through one handle of a hash map; `handles r` is the event "copies of the handle are made or
+dropped, `r` handles now share the table" (it only changes the reference count the growth rule looks at) -/
 inductive HOp (K V : Type) where
   | assign (k : K) (v : V)
   | index (k : K)
   | remove (k : K)
   | clear
   | dup
+  | handles (r : Nat)
 
 def HOp.run (h : K → Nat) (dflt : V) : HOp K V → HashMap.HM K V → HashMap.HM K V
   | .assign k v, m => HashMap.assign h dflt m k v
@@ -362,6 +387,7 @@ def HOp.run (h : K → Nat) (dflt : V) : HOp K V → HashMap.HM K V → HashMap.
   | .remove k, m => HashMap.remove h m k
   | .clear, m => HashMap.clear m
   | .dup, m => HashMap.dup h dflt m
+  | .handles r, m => { m with rc := r }
 
 def HOp.spec (dflt : V) : HOp K V → FinMap K V → FinMap K V
   | .assign k v, f => f.set k v
@@ -369,6 +395,7 @@ def HOp.spec (dflt : V) : HOp K V → FinMap K V → FinMap K V
   | .remove k, f => f.erase k
   | .clear, _ => FinMap.empty
   | .dup, f => f
+  | .handles _, f => f
 
 theorem hashmap_op_refines {h : K → Nat} (dflt : V) (o : HOp K V) {m : HashMap.HM K V} (inv : Inv h m) :
     Inv h (o.run h dflt m) ∧ ∀ k, abs (o.run h dflt m) k = o.spec dflt (abs m) k := by
@@ -382,6 +409,7 @@ theorem hashmap_op_refines {h : K → Nat} (dflt : V) (o : HOp K V) {m : HashMap
     obtain ⟨i, _, a⟩ := AslProofs.HashMap.clear_spec inv
     exact ⟨i, a⟩
   | dup => exact AslProofs.HashMap.dup_spec inv dflt
+  | handles r => exact ⟨⟨inv.wf, inv.count⟩, fun _ => rfl⟩
 
 /-- **hash map = finite map, for every history, every hash function, every table size.**  The invariant
 (chains duplicate-free, every key in bucket `binOf key`, count = number of entries) is preserved by
@@ -529,6 +557,7 @@ inductive SOp (K : Type) where
   | inter (o : HSet K)
   | diff (o : HSet K)
   | fromArray (xs : List K)
+  | handles (r : Nat)
 
 /-- what the model (= the code, by K) does -/
 def SOp.run (h : K → Nat) : SOp K → HSet K → HSet K
@@ -542,6 +571,7 @@ def SOp.run (h : K → Nat) : SOp K → HSet K → HSet K
   | .inter o, s => HashMap.sIn h s o
   | .diff o, s => HashMap.sNotIn h s o
   | .fromArray xs, _ => HashMap.sFromList h xs
+  | .handles r, s => { s with rc := r }
 
 /-- what the mathematical set (a predicate on keys) does -/
 def SOp.spec (h : K → Nat) : SOp K → (K → Prop) → (K → Prop)
@@ -555,6 +585,7 @@ def SOp.spec (h : K → Nat) : SOp K → (K → Prop) → (K → Prop)
   | .inter o, P => fun y => P y ∧ Mem h o y
   | .diff o, P => fun y => P y ∧ ¬ Mem h o y
   | .fromArray xs, _ => fun y => y ∈ xs
+  | .handles _, P => P
 
 /-- operands that are enumerated by the operation and therefore must themselves be well-formed -/
 def SOp.operands : SOp K → List (HSet K)
@@ -578,6 +609,7 @@ theorem set_op_refines {h : K → Nat} (o : SOp K) {s : HSet K} (inv : Inv h s)
   | inter x => exact set_inter_spec inv
   | diff x => exact set_diff_spec inv
   | fromArray xs => exact set_from_array_spec xs
+  | handles r => exact ⟨⟨inv.wf, inv.count⟩, fun _ => Iff.rfl⟩
 
 /-- **Set = mathematical set, for every history, every hash function, every table size.**  After any sequence
 of insertions, removals, clears, clones, merges (`<<`, also with itself), unions, intersections, differences
@@ -613,7 +645,7 @@ def chainRemoveOld (key : Int) : List (Int × Int) → List (Int × Int)
 def removeOld (h : Int → Nat) (m : HashMap.HM Int Int) (key : Int) : HashMap.HM Int Int :=
   let bin := HashMap.binOf h m.buckets.length key
   let c := m.buckets.getD bin []
-  ⟨m.buckets.set bin (chainRemoveOld key c), if HashMap.chainHas key c then m.n - 1 else m.n⟩
+  ⟨m.buckets.set bin (chainRemoveOld key c), if HashMap.chainHas key c then m.n - 1 else m.n, m.rc⟩
 
 /-- `operator==` before 12cf1de: lock-step walk of both enumerations -/
 def eqOld (a b : HashMap.HM Int Int) : Bool :=
@@ -680,6 +712,14 @@ regenerated constants so that a harmless change of the growth rule does not brea
 example : (Gen.HashMap.growNum, Gen.HashMap.growDen, Gen.HashMap.growFactor) = (7, 8, 8) →
     (tbl [1, 5, 9, 13, 17]).buckets.length = 4 ∧ (tbl [1, 5, 9, 13, 17, 21]).buckets.length = 32 ∧
     HashMap.enum (tbl [1, 5, 9, 13, 17, 21]) = [(1, 101), (5, 105), (9, 109), (13, 113), (17, 117), (21, 121)] := by
+  decide
+
+/-- the same sixth insertion while a second handle exists: no growth, nothing lost; growth happens at the first
+insertion after the copy is gone -/
+example : (Gen.HashMap.growNum, Gen.HashMap.growDen, Gen.HashMap.growFactor) = (7, 8, 8) →
+    let shared := HashMap.assign HashMap.hashInt 0 { tbl [1, 5, 9, 13, 17] with rc := 2 } 21 121
+    shared.buckets.length = 4 ∧ shared.n = 6 ∧
+    (HashMap.assign HashMap.hashInt 0 { shared with rc := 1 } 25 125).buckets.length = 32 := by
   decide
 
 /-- "Ab" and "BA" have the same asl hash (the collision named in the property) as long as the multiplier is 33 -/
